@@ -204,7 +204,7 @@ def run(tier):
     core.write_evidence("C06", tier, "model_checking", cov, time.time() - t0, len(verdict.violations),
                         ["a process forked from a parent that imported exactpack but never constructed a solver is equivalent to a fresh interpreter",
                          "black-box Noh: the oracle replays all operations on the same object (setters are configuration); other objects must not matter",
-                         "Guderley (150 s per call) is not part of the replayed behaviours"])
+                         "Guderley is replayed with gamma = 3 / 2 only (gamma = 1.4 takes minutes per call)"])
     return rc
 
 
